@@ -31,6 +31,7 @@ EXPLANATION = (
     "concatenated as pre + entry + body (+ break + cleanup) + exit; the ValueAtMost exit branch is evaluated on an integer grid "
     "against `f <= v`; add on futures loads, adds into and stores back the same temporary; the measurement outcome register is the "
     "one stored to the future; flush = pop -> assemble -> instantiate -> send -> reset."
+    ' Every early return of the loop assemblers is evaluated over a grid of bodies and bounds: the loop may be dropped only when it cannot run. C05.R: a register is not used in an emitted command after its release. C05.Z: no truthiness test on an int-typed value.'
 )
 LEVEL_TEXT = (
     "Static analysis, partial: operand, register, label and branch-sense coherence at every emit site of the control-flow "
